@@ -111,3 +111,15 @@ package tracetransform
 //@   ensures len(out) == len(attrs)
 //@   assert@call KeyValue#* : $arg0 == attrs[$k]
 //@   loop#1 invariant len(out) == $k && $k <= len(attrs) && cap(out) == len(attrs)
+
+// links: one message per link, in order; every message owns its own trace-ID and span-ID bytes - no two links share a backing
+// array (arrid = allocation identity; an array allocated once outside the loop and re-filled would be shared by all links)
+//@ func links(links []tracesdk.Link) (sl []*tracepb.Span_Link)
+//@   prop C13
+//@   overflow assumed
+//@   unchecked frame fresh protobuf messages are written
+//@   ensures len(sl) == len(links)
+//@   ensures forall j in 0 .. len(sl) : forall l in 0 .. j : arrid(sl[j].TraceId) != arrid(sl[l].TraceId) && arrid(sl[j].SpanId) != arrid(sl[l].SpanId)
+//@   loop#1 invariant len(sl) == $k && cap(sl) == len(links) && $k <= len(links)
+//@   loop#1 invariant forall j in 0 .. len(sl) : sl[j] != nil && ptrid(sl[j]) <= $wm && arrid(sl[j].TraceId) <= $wm && arrid(sl[j].SpanId) <= $wm && arrid(sl[j].TraceId) > 0 && arrid(sl[j].SpanId) > 0
+//@   loop#1 invariant forall j in 0 .. len(sl) : forall l in 0 .. j : arrid(sl[j].TraceId) != arrid(sl[l].TraceId) && arrid(sl[j].SpanId) != arrid(sl[l].SpanId)
